@@ -181,7 +181,8 @@ def run_pair(cases, cxx_exe, ml_exe, env=None):
         libm = po[2] if len(po) > 2 and po[0] == i else []
         parsed.append(po)
         mlines.append(dump([i, t, cmd, args, libm]))
-    mout = run_driver(ml_exe, mlines, env=e, chunk=100)
+    # the extracted model is the slow side (about 70 k floating-point operations per second): spread the cases over all cores
+    mout = run_driver(ml_exe, mlines, env=e, chunk=max(1, min(100, (len(mlines) + 47) // 48)))
     global last_model_io
     last_model_io = (mlines, mout)
     out = []
